@@ -18,7 +18,7 @@ import (
 var pubsubSites = []string{"pubsub.send.excl", "pubsub.send.counted", "pubsub.send.armed", "pubsub.send.delivered", "pubsub.unsub.spin", "pubsub.unsub.decided",
 	"pubsub.unsub.counted", "pubsub.iter.received", "caster.send.locked", "caster.send.armed", "caster.send.sent", "caster.send.drained", "caster.add.pos.locked", "caster.add.neg.applied"}
 
-var psSubKinds = []string{"manual", "manual", "manual-timer", "manual-immediate", "iter", "iter", "iter-cancel", "iter-cancel-timer", "iter-never", "iter-cancel-then-run", "iter-precancelled", "iter-panic"}
+var psSubKinds = []string{"manual", "manual", "manual-timer", "manual-immediate", "iter", "iter", "iter-cancel", "iter-cancel-timer", "iter-never", "iter-cancel-then-run", "iter-precancelled", "iter-panic", "iter-nil-yield"}
 
 type psReceipt struct {
 	v     int
@@ -205,6 +205,25 @@ func runPubSub(c *core.Ctx, o psOpts) *psHist {
 					time.Sleep(time.Duration(r.IntN(800)) * time.Microsecond)
 					s.leaveBegin = core.Now()
 					cancel() // the AfterFunc unsubscribes asynchronously
+					return
+				case "iter-nil-yield":
+					// the iterator is called with a nil yield function (documented to panic; recovered here): one more
+					// way of leaving. Either straight away, or after the context was cancelled (the subscription has
+					// then been withdrawn already, or is being withdrawn, by the cancellation), or twice in a row.
+					time.Sleep(time.Duration(r.IntN(500)) * time.Microsecond)
+					s.leaveBegin = core.Now()
+					mode := r.IntN(3)
+					if mode == 0 {
+						cancel()
+						if r.IntN(2) == 0 {
+							time.Sleep(time.Duration(r.IntN(300)) * time.Microsecond)
+						}
+					}
+					core.Recover(func() { seq(nil) })
+					if mode == 2 {
+						core.Recover(func() { seq(nil) })
+					}
+					s.leaveEnd = core.Now()
 					return
 				case "iter-cancel-then-run":
 					time.Sleep(time.Duration(r.IntN(300)) * time.Microsecond)
